@@ -74,8 +74,23 @@ TCDrop ==
                 /\ ns = nx /\ nd < ns
                 /\ PrintT(<< "KNOWN-FINDING", DevId, "row refused by dbase after the shape was written: shp/shx hold more entries than the dbf" >>)
 
+\* which of the three files the path constructors require and pick up (after the drop of a run by
+\* path the files are removed and restored in every combination): the complete Reader requires the
+\* .dbf (MissingDbf) and the .shp; both readers pick the .shx up when it is there and otherwise
+\* answer MissingIndexFile (-2) to shape_count
+TOpenPath ==
+    /\ Ev("openpath") /\ UNCHANGED << cvars, ndev >>
+    /\ LET e == Rec[l]
+           has(x) == \E i \in 1..Len(e.present) : e.present[i] = x
+           n == nShx
+       IN  /\ e.res # "panic"
+           /\ IF e.which = "Reader" /\ ~has("dbf") THEN e.res \in (IF has("shp") THEN {"missing_dbf"} ELSE {"missing_dbf", "io"})
+              ELSE IF ~has("shp") THEN e.res = "io"
+              ELSE /\ e.res = "ok"
+                   /\ e.count = (IF has("shx") THEN (IF cstatus = "ok" THEN n ELSE e.count) ELSE -2)
+
 Init == l = 2 /\ CInit /\ ndev = 0
-Next == TReset \/ TPair \/ TCDrop
+Next == TReset \/ TPair \/ TCDrop \/ TOpenPath
 Spec == Init /\ [][Next]_vars
 
 Accepted ==
